@@ -289,7 +289,7 @@ func NewScaledNumberType(value float64) *ScaledNumberType {
 		numberOfDecimals = 4
 	}
 
-	numberValue := NumberType(math.Trunc(value * math.Pow(10, float64(numberOfDecimals))))
+	numberValue := NumberType(math.Round(value * math.Pow(10, float64(numberOfDecimals))))
 	m.Number = &numberValue
 
 	var scaleValue ScaleType
